@@ -928,8 +928,13 @@ def inline_new_helpers(tree: ast.AST, ref_functions: Set[str]) -> int:
             static = "staticmethod" in decs
             mangled = f"_{cls.name.lstrip('_')}{name}" if name.startswith("__") else name
             hparams = {a.arg for a in h.args.posonlyargs + h.args.args}
-            if any(isinstance(n, ast.Name) and isinstance(n.ctx, (ast.Store, ast.Del)) and n.id in hparams for n in ast.walk(h)):
+            if any(isinstance(n, ast.Name) and isinstance(n.ctx, ast.Del) and n.id in hparams for n in ast.walk(h)):
                 continue
+            # a parameter the helper re-binds: only when the argument is the caller's local of the same name and the caller cannot tell
+            stored_params = {n.id for n in ast.walk(h) if isinstance(n, ast.Name) and isinstance(n.ctx, ast.Store) and n.id in hparams}
+            if stored_params and kind[0] != "proc":
+                continue
+            hstores = {n.id for n in ast.walk(h) if isinstance(n, ast.Name) and isinstance(n.ctx, ast.Store)}
             # call sites in the same class
             sites = []
             others = 0
@@ -958,6 +963,19 @@ def inline_new_helpers(tree: ast.AST, ref_functions: Set[str]) -> int:
                 if not static and c.func.value.id != "self":
                     ok_all = False
                     break
+                if any(not (isinstance(binding.get(p), ast.Name) and binding[p].id == p) for p in stored_params):
+                    ok_all = False
+                    break
+                if kind[0] == "proc":
+                    # the names the helper binds become names of the caller: nothing there may read them afterwards
+                    site = next((st for blk in blocks_of(m) for st in blk if not isinstance(st, (ast.If, ast.For, ast.While, ast.With, ast.Try))
+                                 and any(x is c for x in ast.walk(st))), None)
+                    shared = {n.id for n in ast.walk(m) if isinstance(n, ast.Name) and n.id in hstores}
+                    if isinstance(site, ast.Assign) and site.value is c:
+                        shared -= {t.id for t in site.targets if isinstance(t, ast.Name)}  # bound by the statement itself once the call is over
+                    if site is None or (shared and not _leak_is_unobservable(m, site, shared)):
+                        ok_all = False
+                        break
                 if not _inline_site(m, c, h, kind, binding):
                     ok_all = False
                     break
@@ -1335,6 +1353,16 @@ def _leak_is_unobservable(fn: ast.AST, s: ast.stmt, names: Set[str]) -> bool:
     for p in ast.walk(fn):
         for ch in ast.iter_child_nodes(p):
             parents[id(ch)] = p
+    # the statement right after `s` leaves the function without reading the names: nothing runs afterwards that could tell
+    holder = parents.get(id(s))
+    for f in ("body", "orelse", "finalbody"):
+        b = getattr(holder, f, None)
+        if isinstance(b, list) and any(x is s for x in b):
+            k = [j for j, x in enumerate(b) if x is s][0]
+            if k + 1 < len(b) and isinstance(b[k + 1], (ast.Return, ast.Raise)) \
+                    and not any(isinstance(n, ast.Name) and n.id in names for n in ast.walk(b[k + 1])) \
+                    and not any(isinstance(q, ast.Try) for q in ast.walk(fn)):
+                return True
     pos, last = _positions(fn)
     inside_s = {id(n) for n in ast.walk(s)}
     enc_loops = []
@@ -1366,8 +1394,19 @@ def _leak_is_unobservable(fn: ast.AST, s: ast.stmt, names: Set[str]) -> bool:
                         return True
             child, p = p, parents.get(id(p))
         return False
+    def scoped(n: ast.Name) -> bool:
+        """bound by a comprehension or lambda around it: not the function's variable of that name"""
+        q = parents.get(id(n))
+        while q is not None:
+            if isinstance(q, (ast.ListComp, ast.SetComp, ast.GeneratorExp, ast.DictComp)) \
+                    and any(isinstance(t, ast.Name) and t.id == n.id for g in q.generators for t in ast.walk(g.target)):
+                return True
+            if isinstance(q, ast.Lambda) and any(a.arg == n.id for a in q.args.args):
+                return True
+            q = parents.get(id(q))
+        return False
     for n in ast.walk(fn):
-        if not (isinstance(n, ast.Name) and n.id in names and isinstance(n.ctx, ast.Load)) or id(n) in inside_s:
+        if not (isinstance(n, ast.Name) and n.id in names and isinstance(n.ctx, ast.Load)) or id(n) in inside_s or scoped(n):
             continue
         if pos[id(n)] > last[id(s)]:
             if not dominated(n, last[id(s)]):
